@@ -440,6 +440,186 @@ pub fn c12(r: &mut Rng, sz: &Sizes, out: &mut Vec<String>) {
     }
 }
 
+/// valid texts and their single-character corruptions / prefixes
+fn malformed(r: &mut Rng, base: &str, out: &mut Vec<String>, limit: usize) {
+    let chars: Vec<char> = base.chars().collect();
+    let alphabet: Vec<char> = "\"\\,:[]{}0-.e+ \t\n\rtuxa\u{1}\u{e9}".chars().collect();
+    let mut n = 0;
+    for i in 0..=chars.len() {
+        if n >= limit {
+            break;
+        }
+        // prefix
+        out.push(chars[..i].iter().collect());
+        n += 1;
+        if i < chars.len() {
+            // deletion
+            let mut v = chars.clone();
+            v.remove(i);
+            out.push(v.into_iter().collect());
+            // substitution and insertion by a random alphabet character
+            let c = *r.pick(&alphabet);
+            let mut v = chars.clone();
+            v[i] = c;
+            out.push(v.into_iter().collect());
+            let mut v = chars.clone();
+            v.insert(i, c);
+            out.push(v.into_iter().collect());
+            n += 3;
+        }
+    }
+}
+
+pub fn text_corpus(r: &mut Rng, sz: &Sizes, thorough: bool) -> Vec<String> {
+    let mut texts: Vec<String> = Vec::new();
+    // exhaustive short strings over a JSON alphabet
+    let alpha: Vec<char> = "\"\\ua10-.e+ \n\r\t[]{},:trnl\u{e9}\u{1}/Ef".chars().collect();
+    let maxlen = if thorough { 4 } else { 3 };
+    let mut cur: Vec<Vec<char>> = vec![vec![]];
+    for _ in 0..maxlen {
+        let mut next = Vec::new();
+        for p in &cur {
+            for c in &alpha {
+                let mut q = p.clone();
+                q.push(*c);
+                texts.push(q.iter().collect());
+                next.push(q);
+            }
+        }
+        cur = next;
+    }
+    // exhaustive short token strings
+    let toks = ["[", "]", "{", "}", ",", ":", "\"a\"", "1", "true", "null", " ", "x", "\"b\""];
+    let tmax = if thorough { 6 } else { 5 };
+    let mut cur: Vec<String> = vec![String::new()];
+    for _ in 0..tmax {
+        let mut next = Vec::new();
+        for p in &cur {
+            for t in toks {
+                let q = format!("{p}{t}");
+                texts.push(q.clone());
+                next.push(q);
+            }
+        }
+        cur = next;
+    }
+    // grammar-directed valid texts in every formatting, with corruptions
+    let fixed = [
+        "{\"a\":1,\"b\":[true,false,null],\"c\":{\"d\":\"x\\n\\u00e9\\\"\"}}",
+        "[1,-0,0.5,1e3,-2.5E-2,123456789]",
+        " \r\n\t[ ] ",
+        "{\"a\":1,\"a\":2}",
+        "{\"a\":1,\"a\":\"s\"}",
+        "{\"a\\u0041\":1,\"aA\":2}",
+        "{\"\\ud83d\\ude00\":1}",
+        "{\"\\ud800\":1}",
+        "\"\u{e9}\\x\"",
+        "[\"\u{1F600}\", \"\\u12\"]",
+        "\"a\tb\"",
+    ];
+    for t in fixed {
+        texts.push(t.to_string());
+        malformed(r, t, &mut texts, 400);
+    }
+    for i in 0..sz.docs / 5 {
+        let d = rand_doc(r, i % 4, &KEYS[..7]);
+        let t = d.render(r.below(4));
+        texts.push(t.clone());
+        if t.len() < 120 {
+            malformed(r, &t, &mut texts, 60);
+        }
+    }
+    // nesting around the documented limit
+    for n in [200usize, 255, 256, 257, 258, 300] {
+        texts.push(format!("{}{}", "[".repeat(n), "]".repeat(n)));
+        texts.push(format!("{}1{}", "[".repeat(n), "]".repeat(n)));
+        let mut t = String::new();
+        for _ in 0..n / 2 {
+            t.push_str("{\"a\":[");
+        }
+        t.push('1');
+        for _ in 0..n / 2 {
+            t.push_str("]}");
+        }
+        texts.push(t);
+        texts.push("[".repeat(n));
+    }
+    texts
+}
+
+pub fn c04(r: &mut Rng, sz: &Sizes, out: &mut Vec<String>) {
+    let thorough = sz.histories > 10_000;
+    let shape = "(A0 U0)";
+    for t in text_corpus(r, sz, thorough) {
+        let h = crate::wire::hex(t.as_bytes());
+        out.push(format!("inferdoc\t{h}"));
+        if t.len() > 3 && r.chance(1, 8) {
+            out.push(format!("supersetchk\t{shape}\t{h}"));
+            out.push(format!("superset\t{shape}\t{h}"));
+            out.push(format!("sourcesdoc\t{}\t{h}", crate::wire::hex(b"[1]")));
+        }
+    }
+}
+
+pub fn c05(r: &mut Rng, sz: &Sizes, out: &mut Vec<String>) {
+    let thorough = sz.histories > 10_000;
+    for t in text_corpus(r, sz, thorough) {
+        let h = crate::wire::hex(t.as_bytes());
+        out.push(format!("inferdoc\t{h}"));
+        if r.chance(1, 10) {
+            out.push(format!("lex\t{h}"));
+            out.push(format!("cst\t{h}"));
+        }
+    }
+    // hostile sizes: the answer is not compared with the model beyond "returns an error or a shape"
+    for n in [1000usize, 100_000] {
+        out.push(format!("inferdoc\t{}", crate::wire::hex("[".repeat(n).as_bytes())));
+        out.push(format!("inferdoc\t{}", crate::wire::hex(format!("{}{}", "[".repeat(n), "]".repeat(n)).as_bytes())));
+        out.push(format!("inferdoc\t{}", crate::wire::hex("{\"a\":".repeat(n).as_bytes())));
+    }
+    let big = if thorough { 4_000_000 } else { 300_000 };
+    out.push(format!("inferdoc\t{}", crate::wire::hex(format!("\"{}\"", "a\u{e9}".repeat(big / 3)).as_bytes())));
+    out.push(format!("inferdoc\t{}", crate::wire::hex(format!("[{}1]", "1,".repeat(big / 2)).as_bytes())));
+    out.push(format!("inferdoc\t{}", crate::wire::hex(format!("\"{}", "\\u00e9".repeat(big / 6)).as_bytes())));
+    // serde_json values up to its depth limit (127 nested arrays), value path
+    for n in [1usize, 10, 64, 127] {
+        let t = format!("{}1{}", "[".repeat(n), "]".repeat(n));
+        out.push(format!("inferv\t{}", crate::wire::hex(t.as_bytes())));
+        let mut t = String::new();
+        for _ in 0..n / 2 {
+            t.push_str("{\"a\":[");
+        }
+        t.push_str("null");
+        for _ in 0..n / 2 {
+            t.push_str("]}");
+        }
+        out.push(format!("inferv\t{}", crate::wire::hex(t.as_bytes())));
+    }
+    for d in docs(r, sz) {
+        out.push(format!("inferv\t{}", hex_doc(&d, r.below(4))));
+    }
+}
+
+pub fn c07(r: &mut Rng, sz: &Sizes, out: &mut Vec<String>) {
+    infer_ops(r, sz, out, false);
+    for d in docs(r, sz) {
+        for _ in 0..3 {
+            let d2 = rerender(r, &d);
+            out.push(format!("p_c07\t{}\t{}\t!ok", hex_doc(&d, r.below(4)), hex_doc(&d2, r.below(4))));
+        }
+    }
+    // lexical forms of one document
+    let forms = [
+        ("{\"a\":1,\"b\":[\"x\",\"y\"]}", "{\r\"b\"\t:\r\n[ \"\\u0078\\n\" ,\"\u{e9}\"],\"\\u0061\":-0.0e+10 }\r"),
+        ("[1,2,3]", "[ 1.5E3 ]"),
+        ("[true]", "[false,true,false]"),
+        ("{\"k\":null}", " { \"k\" : null } "),
+    ];
+    for (a, b) in forms {
+        out.push(format!("p_c07\t{}\t{}\t!ok", crate::wire::hex(a.as_bytes()), crate::wire::hex(b.as_bytes())));
+    }
+}
+
 pub fn generate(prop: &str, tier: &str, seed: u64) -> Vec<String> {
     let mut r = Rng(seed ^ 0x5eed_0000 ^ (prop.bytes().fold(0u64, |a, b| a * 131 + b as u64)));
     let sz = sizes(tier);
@@ -450,6 +630,9 @@ pub fn generate(prop: &str, tier: &str, seed: u64) -> Vec<String> {
         "C02" => c02(&mut r, &sz, &mut out),
         "C03" => c03(&mut r, &sz, &mut out),
         "keeps" => keeps(&mut r, &sz, &mut out),
+        "C04" => c04(&mut r, &sz, &mut out),
+        "C05" => c05(&mut r, &sz, &mut out),
+        "C07" => c07(&mut r, &sz, &mut out),
         "C06" => c06(&mut r, &sz, &mut out),
         "C09" => c09(&mut r, &sz, &mut out),
         "C11" => c11(&mut r, &sz, &mut out),
